@@ -16,6 +16,7 @@ import mido
 import mido.backends._parser_queue
 import mido.parser
 import mido.ports
+import mido.sockets
 import mido.tokenizer
 from mido import Message
 from mido.backends._parser_queue import ParserQueue
@@ -28,9 +29,9 @@ from ..mon import lines, sched
 ID = 'C10'
 ANCHORS = ['mido.ports', 'mido.backends._parser_queue']
 LEVEL = 'exploration'
-RULE = ('8 programs of 3-4 threads (1-2 senders, 1-2 receivers) over WirePort loopback, EchoPort, '
+RULE = ('9 programs of 3-4 threads (1-2 senders, 1-2 receivers) over WirePort loopback, EchoPort, '
         'IOPort(WireIn, WireOut), MultiPort fan-out and fan-in, two iter_pending consumers, '
-        'ParserQueue with two producers and with two pollers; every yield point is a line of mido/ports.py, parser.py, tokenizer.py, '
+        'ParserQueue with two producers and with two pollers, a SocketPort pair over socketpair(); every yield point is a line of mido/ports.py, parser.py, tokenizer.py, '
         'backends/_parser_queue.py or of the device double, a lock operation or a sleep(). All '
         'schedules with <= 1 preemption (each preemption tried with every other runnable thread) '
         'are enumerated (quick; <= 2 on the candidate lines of ports.py/_parser_queue.py/doubles in '
@@ -47,8 +48,8 @@ DECIDING = ['no call raises', 'exactly once (nothing lost, duplicated, invented)
             'received == sent snapshot, not the same object', 'per-sender FIFO per receiver',
             'no empty answer while certainly queued', 'wire bytes contiguous']
 TIMEOUT = {'quick': 600, 'thorough': 5400}
-MODULES = [mido.ports, mido.parser, mido.tokenizer, mido.backends._parser_queue, doubles]
-CANDIDATE_FILES = ('ports.py', '_parser_queue.py', 'doubles.py')
+MODULES = [mido.ports, mido.parser, mido.tokenizer, mido.backends._parser_queue, mido.sockets, doubles]
+CANDIDATE_FILES = ('ports.py', '_parser_queue.py', 'doubles.py', 'sockets.py')
 _codes = None
 
 
@@ -334,7 +335,26 @@ class P6bParserQueuePollers(Program):
                 receiver(rec, 2, p, 'q', [('poll', 2, 9), ('iter_pending',)])]
 
 
-PROGRAMS = [P1Wire, P2Echo, P3IOPort, P4Fanout, P4Fanin, P5IterPending, P6ParserQueue, P6bParserQueuePollers]
+class P7SocketPair(Program):
+    name = 'P7-socketport-pair'
+
+    def build(self, sc, rec):
+        import socket
+        from mido.sockets import SocketPort
+        a, b = socket.socketpair()
+        pa = self.wrap(sc, SocketPort('a', 1, conn=a), 'sa')
+        pb = self.wrap(sc, SocketPort('b', 1, conn=b), 'sb')
+        self.ports = {'b': pb}
+        self.keep = (pa,)
+        self.wires = []
+        self.route = lambda pname: ['b']
+        self.cleanup = lambda: (pa.close(), pb.close())
+        return [sender(rec, 0, pa, 'a', 0, (0, 1), (0, 1)), sender(rec, 1, pa, 'a', 1, (0, 1), (2, 3)),
+                receiver(rec, 2, pb, 'b', [('poll', 3, 2)]), receiver(rec, 3, pb, 'b', [('poll', 2, 9), ('iter_pending',)])]
+
+
+PROGRAMS = [P1Wire, P2Echo, P3IOPort, P4Fanout, P4Fanin, P5IterPending, P6ParserQueue, P6bParserQueuePollers,
+            P7SocketPair]
 
 
 def run_schedule(prog_cls, strategy, max_steps=6000):
@@ -365,6 +385,8 @@ def run_schedule(prog_cls, strategy, max_steps=6000):
                 rec.ret(9, 'drain', pname, m)
                 if m is None:
                     break
+    if hasattr(prog, 'cleanup'):
+        prog.cleanup()
     # keep doubles from sending resets etc. on __del__
     for port in list(prog.ports.values()) + list(getattr(prog, 'keep', ())):
         if hasattr(port, 'closed'):
@@ -570,6 +592,8 @@ def stress_run(prog_cls, seed):
                 rec.ret(9, 'drain', pname, m)
                 if m is None:
                     break
+    if hasattr(prog, 'cleanup'):
+        prog.cleanup()
     for port in list(prog.ports.values()) + list(getattr(prog, 'keep', ())):
         if hasattr(port, 'closed'):
             port.closed = True
